@@ -219,6 +219,19 @@ func main() {
 			addRR(in, "random")
 		}
 	}
+	if only == nil {
+		// many partitions in one call (cursor / index arithmetic): 257..420 partitions, member counts that do not divide 256
+		for i, nm := range []int{3, 5, 6, 7} {
+			in := bg.Input{}
+			for k := 0; k < nm; k++ {
+				in.Members = append(in.Members, bg.Member{ID: fmt.Sprintf("m%d", k), Topics: []string{"big", "t"}})
+			}
+			in.Topics = []bg.Topic{{Name: "big", Parts: bg.Seq(257 + r.Intn(120) + 10*i)}, {Name: "t", Parts: bg.Seq(r.Intn(40))}}
+			in.Normalize()
+			addRange(in, "large")
+			addRR(in, "large")
+		}
+	}
 	wr.Close()
 	wq.Close()
 
